@@ -21,19 +21,6 @@ func (d *vEwma) EwmaUpdate(n int64, dur time.Duration) {
 	d.lastD = dur
 }
 
-func vWrap(d decor.Decorator, depth int) decor.Decorator {
-	if depth >= 1 {
-		d = decor.Meta(d, func(s string) string { return s })
-	}
-	if depth >= 2 {
-		d = decor.OnAbort(d, "aborted")
-	}
-	if depth >= 3 {
-		d = decor.OnComplete(d, "done")
-	}
-	return d
-}
-
 // C20 sample delivery: every Ewma* call hands exactly one sample (progress made, duration) to every
 // moving-average decorator, however deeply it is wrapped.
 func vhC20SampleDelivery() {
